@@ -129,8 +129,9 @@ class Parser(object):
         # try to use the token in the actual lexer over the token that
         # got passed in.
         cur_token = self.lexer.cur_token or token
-        if (cur_token.type == 'DIV' and self.lexer.valid_prev_token.type in (
-                'RBRACE', 'PLUSPLUS', 'MINUSMINUS')):
+        if (cur_token.type == 'DIV' and self.lexer.valid_prev_token and
+                self.lexer.valid_prev_token.type in (
+                    'RBRACE', 'PLUSPLUS', 'MINUSMINUS')):
             # this is the most pathological case in JavaScript; given
             # the usage of the LRParser there is no way to use the rules
             # below to signal the specific "safe" cases, so we have to
